@@ -1,6 +1,7 @@
 use crate::utils::pckg;
 use duckscript::runner;
 use duckscript::types::command::{Command, CommandInvocationContext, CommandResult};
+use duckscript::types::env::Env;
 use duckscript::types::runtime::Context;
 use walkdir::DirEntry;
 use walkdir::WalkDir;
@@ -74,7 +75,10 @@ assert result
             let mut runner_context = Context::new();
             runner_context.commands = context.commands.clone();
 
-            match runner::run_script(&script, runner_context, None) {
+            // the tests run under the embedder's halt flag
+            let runner_env = Env::new(None, None, Some(context.env.halt.clone()));
+
+            match runner::run_script(&script, runner_context, Some(runner_env)) {
                 Err(error) => CommandResult::Crash(
                     format!("Error while running tests.\n{}", &error.to_string()).to_string(),
                 ),
